@@ -15,10 +15,12 @@ import (
 	"github.com/wi1dcard/fingerproxy/pkg/hack"
 )
 
-// scriptConn delivers scripted chunks; a nil chunk is a read error.
+// scriptConn delivers scripted chunks; a nil chunk is a read error; a chunk listed in withErr is delivered
+// TOGETHER with an error (io.Reader allows n > 0 with err != nil).
 type scriptConn struct {
-	chunks [][]byte
-	i      int
+	chunks  [][]byte
+	withErr map[int]bool
+	i       int
 }
 
 var errScripted = errors.New("scripted read error")
@@ -31,6 +33,9 @@ func (c *scriptConn) Read(b []byte) (int, error) {
 	c.i++
 	if ch == nil {
 		return 0, errScripted
+	}
+	if c.withErr[c.i-1] {
+		return copy(b, ch), errScripted
 	}
 	return copy(b, ch), nil
 }
@@ -97,6 +102,13 @@ func capExec(a []string) string {
 			sc.chunks = append(sc.chunks, nil)
 			continue
 		}
+		if strings.HasSuffix(c, "E") {
+			if sc.withErr == nil {
+				sc.withErr = map[int]bool{}
+			}
+			sc.withErr[len(sc.chunks)] = true
+			c = c[:len(c)-1]
+		}
 		n, _ := strconv.Atoi(c)
 		if off+n > len(stream) {
 			n = len(stream) - off
@@ -113,10 +125,8 @@ func capExec(a []string) string {
 	var up []byte
 	buf := make([]byte, 70000)
 	for i := range sc.chunks {
-		n, err := h.Read(buf)
-		if err == nil {
-			up = append(up, buf[:n]...)
-		}
+		n, _ := h.Read(buf)
+		up = append(up, buf[:n]...) // a reader consumes the n bytes before it looks at the error
 		r := capRes(h)
 		if r != last {
 			fmt.Fprintf(&sb, " %d:%s", i+1, r)
@@ -318,6 +328,12 @@ func init() {
 				left -= n
 			}
 			emit(parts, total, strings.Join(cuts, ","), kind)
+			if len(cuts) > 0 && cuts[len(cuts)-1] != "e" && r.chance(1, 4) {
+				// the last bytes arrive together with a read error: the reader above must still get them
+				withErr := append(append([]string{}, cuts[:len(cuts)-1]...), cuts[len(cuts)-1]+"E")
+				c.tag("kind:data-with-error")
+				c.op("cap parts=" + parts + " cuts=" + strings.Join(withErr, ","))
+			}
 		}
 	})
 }
